@@ -278,11 +278,15 @@ func c14RunImpl(c corr.Case) []string {
 			case "h.read":
 				b := make([]byte, atoi(t[2]))
 				n, err := h.Read(b)
-				return fmt.Sprintf("bytes=%s err:%s", c14Bytes(b[:n]), c14Err(err))
+				res := fmt.Sprintf("bytes=%s err:%s", c14Bytes(b[:n]), c14Err(err))
+				scribble(b) // the buffer is the caller's again: a handle that kept it would now read these bytes back
+				return res
 			case "h.readat":
 				b := make([]byte, atoi(t[2]))
 				n, err := h.ReadAt(b, atoi64(t[3]))
-				return fmt.Sprintf("bytes=%s err:%s", c14Bytes(b[:n]), c14Err(err))
+				res := fmt.Sprintf("bytes=%s err:%s", c14Bytes(b[:n]), c14Err(err))
+				scribble(b)
+				return res
 			case "h.seek":
 				p, err := h.Seek(atoi64(t[2]), atoi(t[3]))
 				if err != nil {
@@ -1005,6 +1009,14 @@ func c14Corpus() []corr.Case {
 		noslash := []c14Ent{file("a.txt", "hello"), dir("d"), file("d/x", "xyz"), dir("e"), dir("sub/deep"), file("sub/deep/y", "yy")}
 		cs = append(cs, c14Case(k, noslash, "stat "+hp("d"), "open "+hp("d"), "h.readdirnames 0 -1", "h.read 0 4", "stat "+hp("e"), "open "+hp("e"), "h.readdir 1 -1", "h.readdirnames 1 0",
 			"open "+hp("sub/deep"), "h.readdirnames 2 -1", "open "+hp("/"), "h.readdirnames 3 -1", "stat "+hp("sub")))
+	}
+	// an archive of a directory itself, as `tar -cf x.tar .` writes it: an entry for "./" and every name below it with that prefix
+	{
+		dotted := []c14Ent{dir("./"), file("./main.go", "package main"), dir("./docs/"), file("./docs/x.md", "x"), file("./docs/deep/y", "yy")}
+		cc := c14Case("tar", dotted, "open "+hp("/"), "h.readdirnames 0 -1", "open "+hp("/"), "h.readdir 1 1", "h.readdir 1 1", "h.readdir 1 -1", "stat "+hp("/"), "stat "+hp("main.go"),
+			"open "+hp("docs"), "h.readdirnames 2 -1", "stat "+hp("."), "open "+hp("docs/deep/y"), "h.read 3 8")
+		cc.Lines[0] = "o" + cc.Lines[0]
+		cs = append(cs, cc)
 	}
 	// simultaneous handles in different goroutines on a fresh archive
 	for _, k := range c14Kinds {
